@@ -121,13 +121,13 @@ Qed.
 
 (* operations that do not re-bind handle h *)
 Definition keeps (h : Z) (o : op) : Prop :=
-  match o with ONewH h' _ => h' <> h | OMake h' _ _ _ _ _ => h' <> h | _ => True end.
+  match o with OMake h' _ _ _ _ _ => h' <> h | _ => True end.
 
 Lemma step_hframe w o w' outs h :
   inv fts w -> op_ok o -> keeps h o -> step true fts w o = Ok (w', outs) -> hframe h w w'.
 Proof.
   intros Hi Hok Hk.
-  destruct o as [c nc init|c|c items|copt|obj copt nc pa mode ids|h' ids|h' obj|h' K copt nc pa ids|h' obj ids|h' obj mode ids]; cbn [step].
+  destruct o as [c nc init|c|c items|copt|obj copt nc pa mode ids|h' K copt nc pa ids|h' obj ids|h' obj mode ids]; cbn [step].
   - intros [= <- _]. apply hframe_eq; reflexivity.
   - intros [= <- _]. apply hframe_eq; reflexivity.
   - intros [= <- _]. eapply hframe_trans; [|apply hframe_gc]. apply hframe_moves. apply moves_add_items; [apply Hi|exact Hok].
@@ -139,7 +139,7 @@ Proof.
       eapply hframe_trans;
         [apply (hframe_eq h w (set_global (set_nextc (put_conf w (w_nextc w) (dflt_conf false)) (w_nextc w - 1)) (Some (w_nextc w)))); reflexivity|].
       apply hframe_moves. apply moves_resync. apply Hi.
-  - destruct Hok as [Hobj Hpa].
+  - pose proof (obj_ok_all obj) as Hobj. pose proof Hok as Hpa.
     pose proof (inv_set_oracle fts w ids Hi) as H0.
     destruct (mk_palette true (set_oracle w ids) (o_cls obj) pa copt nc) as [[w1 cp]|] eqn:E1; [|discriminate].
     cbn [bind]. pose proof (inv_mk_palette fts _ _ _ _ _ _ _ H0 Hpa E1) as H1.
@@ -152,16 +152,6 @@ Proof.
     eapply hframe_trans; [apply hframe_moves; apply (good_consume true fts _ _ _ _ _ _ (proj1 H1') (or_introl eq_refl) Hobj E2)|].
     eapply hframe_trans; [apply (hframe_eq h w2 (set_stack w2 [])); reflexivity|]. apply hframe_gc.
   - pose proof (inv_set_oracle fts w ids Hi) as H0.
-    destruct (class_call true (set_oracle w ids) None false hcmd_cls false) as [[w1 p]|] eqn:E1; [|discriminate].
-    cbn [bind fst snd]. intros [= <- _].
-    eapply hframe_trans; [apply (hframe_eq h w (set_oracle w ids)); reflexivity|].
-    eapply hframe_trans; [apply hframe_moves; apply (moves_class_call true fts _ _ _ _ _ _ (proj1 H0) E1)|].
-    eapply hframe_trans; [apply hframe_bind; exact Hk|]. apply hframe_gc.
-  - destruct (zfind h' (w_hcmds w)) as [cp|] eqn:Eh; [|discriminate].
-    destruct (gen_lines true fts w cp obj) as [[w1 ls]|] eqn:E1; [|discriminate]. cbn [bind fst snd].
-    intros [= <- _]. eapply hframe_trans; [|apply hframe_gc]. apply hframe_moves.
-    apply (good_gen_lines true fts _ _ _ _ _ (proj1 Hi) (held_handle w h' cp Eh) Hok E1).
-  - pose proof (inv_set_oracle fts w ids Hi) as H0.
     destruct (mk_palette true (set_oracle w ids) K pa copt nc) as [[w1 cp]|] eqn:E1; [|discriminate].
     cbn [bind fst snd]. intros [= <- _].
     eapply hframe_trans; [apply (hframe_eq h w (set_oracle w ids)); reflexivity|].
@@ -172,13 +162,13 @@ Proof.
     destruct (gen_lines true fts (set_oracle w ids) cp obj) as [[w1 ls]|] eqn:E1; [|discriminate]. cbn [bind fst snd].
     intros [= <- _]. eapply hframe_trans; [apply (hframe_eq h w (set_oracle w ids)); reflexivity|].
     eapply hframe_trans; [|apply hframe_gc]. apply hframe_moves.
-    apply (good_gen_lines true fts _ _ _ _ _ (proj1 H0) (held_handle w h' cp Eh) Hok E1).
+    apply (good_gen_lines true fts _ _ _ _ _ (proj1 H0) (held_handle w h' cp Eh) (obj_ok_all obj) E1).
   - destruct (zfind h' (w_hcmds w)) as [cp|] eqn:Eh; [|discriminate].
     pose proof (inv_set_oracle fts w ids Hi) as H0.
     destruct (consume true fts (set_oracle w ids) cp obj mode) as [[w1 ts1]|] eqn:E1; [|discriminate]. cbn [bind fst snd].
     intros [= <- _]. eapply hframe_trans; [apply (hframe_eq h w (set_oracle w ids)); reflexivity|].
     eapply hframe_trans; [|apply hframe_gc]. apply hframe_moves.
-    apply (good_consume true fts _ _ _ _ _ _ (proj1 H0) (held_handle w h' cp Eh) Hok E1).
+    apply (good_consume true fts _ _ _ _ _ _ (proj1 H0) (held_handle w h' cp Eh) (obj_ok_all obj) E1).
 Qed.
 
 Lemma run_hframe ops : forall w w' outs h,
